@@ -130,6 +130,17 @@ func windowStep(fset *token.FileSet, s ast.Stmt) string {
 					return "default:" + x
 				}
 			}
+			// `if x == 0 || x > len(docs)-y { x = len(docs) - y }`: x is cut down to what is left after y
+			if as, ok := v.Body.List[0].(*ast.AssignStmt); ok && as.Tok == token.ASSIGN && len(as.Lhs) == 1 {
+				x := exprText(fset, as.Lhs[0])
+				nosp := func(t string) string { return strings.ReplaceAll(t, " ", "") }
+				if sub, ok := as.Rhs[0].(*ast.BinaryExpr); ok && sub.Op == token.SUB && exprText(fset, sub.X) == "len(docs)" {
+					y := exprText(fset, sub.Y)
+					if nosp(exprText(fset, v.Cond)) == nosp(x+" == 0 || "+x+" > len(docs)-"+y) {
+						return "rest:" + x + "," + y
+					}
+				}
+			}
 		}
 	case *ast.AssignStmt:
 		if v.Tok == token.ASSIGN && len(v.Lhs) == 1 && len(v.Rhs) == 1 {
@@ -355,7 +366,7 @@ func genStore(repo, out string, ps []*packages.Package) {
 	if win == nil {
 		win = []string{}
 	}
-	fmt.Fprintf(&b, "/-- `store.Find`: the statements between the sort and the return, classified (clamp:x = `if x > len(docs) { x = len(docs) }`,\ndefault:x = `if x == 0 { x = len(docs) }`, add:x,y = `x = y + x`, slice:a,b = `docs = docs[a:b]`) -/\ndef findWindow : List String := %s\n\n", leanStrListInline(win))
+	fmt.Fprintf(&b, "/-- `store.Find`: the statements between the sort and the return, classified (clamp:x = `if x > len(docs) { x = len(docs) }`,\ndefault:x = `if x == 0 { x = len(docs) }`, rest:x,y = `if x == 0 || x > len(docs)-y { x = len(docs) - y }`, add:x,y = `x = y + x`,\nslice:a,b = `docs = docs[a:b]`) -/\ndef findWindow : List String := %s\n\n", leanStrListInline(win))
 	var fcalls [][2]string
 	for _, m := range []string{"Update", "Delete", "Find"} {
 		for _, a := range callsOf(fs(st), bodyOf(st.funcDecl("store", m)), "s.find") {
